@@ -9,9 +9,6 @@ Solver-decided parts (real code run symbolically):
             base^len and rationals are (symbolic numerator, denominator) pairs.  Assertion: the value is
             (-1)^s (i + f base^-len(f)) b^e exactly, and a negative spelling of zero is the signed zero.
   digits/…  `Digits.as_rational` (m symbolic; e, b enumerated) and `Rational.as_rational` (p, q symbolic).
-  parse/…   `Parser._parse_expr/_parse_constant/_parse_unaryop` on the Python AST of a literal whose `ast.Constant.value`
-            is replaced by an UNCONSTRAINED symbolic double (is_integer, int(), str() all symbolic): the FPy value
-            must be the exact value of the SPELLING for every double — i.e. it does not depend on Python's float parser.
 Concrete support (labelled so in the evidence):
   spelling/… generated spellings of every kind through the real `@fp.fpy` front end and interpreter, under fp.REAL and
             under narrow contexts, against an independent character-level reader and an independent rounding function.
@@ -47,8 +44,7 @@ def tasks(tier, seed):
         for ex in ([-6, -1, 0, 1, 5] if tier == 'quick' else list(range(-8, 9))):
             ts.append(dict(kind='digits', name='digits/b%d/e%d' % (b, ex), b=b, ex=ex))
     ts.append(dict(kind='rational', name='rational/pq'))
-    for i, sp in enumerate(PARSE_SPELLINGS):
-        ts.append(dict(kind='parse', name='parse/%d/%s' % (i, sp[:24]), text=sp))
+    ts.append(dict(kind='spelling', name='spelling/fixed', fixed=True, seed=0, count=0, cost=2))
     n = 40 if tier == 'quick' else 400
     for k in range(16):
         ts.append(dict(kind='spelling', name='spelling/%d' % k, seed=seed * 7919 + k, count=n, cost=3))
@@ -56,7 +52,7 @@ def tasks(tier, seed):
 
 
 def required_witnesses(tier):
-    return ['sci-value', 'sci-negative-zero', 'digits-value', 'rational-value', 'rational-zero-denominator', 'parse-exact', 'spelling-real', 'spelling-rounded', 'spelling-negzero']
+    return ['sci-value', 'sci-negative-zero', 'digits-value', 'rational-value', 'rational-zero-denominator', 'spelling-real', 'spelling-rounded', 'spelling-negzero']
 
 
 # ---- symbolic rationals ----------------------------------------------------------------------------------------------
@@ -290,80 +286,8 @@ def run_task(task):
                 samples.append({'task': task['name'], 'example': e.model_inputs(), 'proved': ok})
         eng = explore(run, setup, W=64, bl_max=56)
 
-    else:  # parse
-        text = task['text']
-        from .c06_common import exact_decimal
-        inner = text
-        neg_outer = False
-        if inner.startswith('-(') and inner.endswith(')'):
-            neg_outer = True; lit = inner[2:-1]
-        elif inner.startswith('-'):
-            neg_outer = True; lit = inner[1:]
-        else:
-            lit = inner
-        _, val = exact_decimal(lit)
-        if neg_outer:
-            val = -val
-
-        def setup(e):
-            return (e.fresh('isint', 0, 1), e.fresh('asint', -(1 << 70), 1 << 70), e.fresh('I', 0, 9999999), e.fresh('F', 0, 9999999))
-
-        def run(e, isint, asint, I, F):
-            import ast
-            import fpy2.ast.fpyast as A
-            from fpy2 import Float
-            from fpy2.frontend.parser import Parser
-            from fpy2.env import ForeignEnv
-            SymFrac = _install_digit_shims(I, F, 10, ('1111111', '2222222'))
-
-            class SymDouble(float):
-                """an arbitrary double: every observation of its value is symbolic"""
-                def is_integer(s):
-                    return isint == 1
-
-                def __int__(s):
-                    return asint
-                __trunc__ = __int__
-                __index__ = __int__
-
-                def __str__(s):
-                    return '1111111.2222222'
-                __repr__ = __str__
-
-                def __format__(s, spec):
-                    return '1111111.2222222'
-
-                def hex(s):
-                    return '0x1.0p+0'
-
-                def as_integer_ratio(s):
-                    return (asint, 1)
-            parser = Parser('<verif>', ['def f():\n', '    return %s\n' % text], ForeignEnv.default())
-            ptree = parser._start_parse()
-            n = 0
-            for node in ast.walk(ptree):
-                if isinstance(node, ast.Constant) and isinstance(node.value, float):
-                    node.value = SymDouble(node.value); n += 1
-            assert n == 1
-            try:
-                fe = parser._parse_expr(ptree.body[0].value)
-                sgn = 1
-                if isinstance(fe, A.Neg):
-                    fe = fe.arg; sgn = -1
-                r = fe.as_real()
-            except Exception as ex_:  # noqa
-                e.require(False, info={'spelling': text, 'raised': repr(ex_)[:160]}); return
-            if isinstance(r, Float):
-                post = z3.BoolVal(val == 0 and neg_outer and bool(r.s) and r.c == 0)
-            else:
-                if not isinstance(r, SymFrac):
-                    r = SymFrac(r.numerator, r.denominator) if hasattr(r, 'numerator') else r
-                post = z3.And(_scaled_equal(sgn * r.n, r.d, val.numerator, val.denominator), z3.BoolVal(not (val == 0 and neg_outer and sgn == 1)))
-            e.cover('parse-exact', True)
-            ok = e.require(post, info={'spelling': text})
-            if len(samples) < 2:
-                samples.append({'task': task['name'], 'spelling': text, 'proved_for_every_double': ok})
-        eng = explore(run, setup, W=1400 if abs(val) > 10 ** 40 or (val != 0 and abs(val) < 10 ** -40) else 320, bl_max=64)
+    else:
+        raise ValueError(kind)
 
     cexs = []
     for cx in eng.cex:
@@ -442,7 +366,7 @@ SP_CTX = [('MPFloatContext(3)', 3, 'RNE'), ('MPFloatContext(8, fp.RM.RTZ)', 8, '
           ('MPFloatContext(5, fp.RM.RTN)', 5, 'RTN')]
 
 
-def check_spelling(expr, kind, payload, ci):
+def check_spelling(expr, kind, payload, ci, want_override=None):
     """runs the real front end + interpreter; returns list of problems (strings)"""
     import fpy2 as fp
     from fractions import Fraction
@@ -450,6 +374,8 @@ def check_spelling(expr, kind, payload, ci):
     from . import progs
     from .c06_common import round_frac, show
     want, negzero = expected_of(kind, payload)
+    if want_override is not None:
+        want, negzero = want_override
     cexpr, p, rm = SP_CTX[ci]
     src = ('@fp.fpy\ndef bare():\n    return %s\n\n@fp.fpy\ndef rounded():\n    with fp.%s:\n        return fp.round(%s)\n\n'
            '@fp.fpy\ndef used():\n    with fp.%s:\n        return %s + 0\n' % (expr, cexpr, expr, cexpr, expr))
@@ -508,9 +434,16 @@ def run_spelling(task):
     cex = []; wit = {'spelling-real': 0, 'spelling-rounded': 0, 'spelling-negzero': 0}
     samples = []
     n = 0
+    todo = []
+    if task.get('fixed'):
+        from .c06_common import exact_decimal
+        for i, sp in enumerate(PARSE_SPELLINGS):
+            lit = sp[2:-1] if sp.startswith('-(') else sp.lstrip('-')
+            isz = exact_decimal(lit)[1] == 0 and sp.startswith('-')
+            todo.append((sp, 'negzero' if isz else 'dec', sp if not sp.startswith('-(') else '-' + lit, i % len(SP_CTX)))
     for _ in range(task['count']):
-        expr, kind, payload = gen_spelling(rng)
-        ci = rng.randrange(len(SP_CTX))
+        todo.append(gen_spelling(rng) + (rng.randrange(len(SP_CTX)),))
+    for expr, kind, payload, ci in todo:
         problems, want, negzero = check_spelling(expr, kind, payload, ci)
         n += 1
         wit['spelling-real'] += 1; wit['spelling-rounded'] += 1
@@ -527,14 +460,14 @@ def describe(tier):
     R = '/repo/fpy2/'
     return dict(
         functions=['utils.fractions.decnum_to_fraction / hexnum_to_fraction / _sci_to_fraction / digits_to_fraction', 'ast.fpyast.Decnum/Hexnum/Integer/Rational/Digits.as_rational / as_real',
-                   'frontend.parser.Parser._parse_constant / _parse_unaryop / _parse_expr (ast.Constant.value symbolic)', 'interpret.byte.BytecodeCompiler._rational_to_ast (concrete table)', 'ops.round / + on literals (concrete table)'],
+                   'frontend.parser.Parser._parse_constant / _parse_unaryop (concrete table)', 'interpret.byte.BytecodeCompiler._rational_to_ast (concrete table)', 'ops.round / + on literals (concrete table)'],
         files=[R + 'frontend/parser.py', R + 'ast/fpyast.py', R + 'utils/fractions.py', R + 'interpret/byte.py', R + 'ops.py'],
         bounds=dict(digit_group_lengths=LENS[tier], fraction_lengths=FLENS[tier], decimal_exponents=DEC_EXPS[tier], hex_exponents=HEX_EXPS[tier], digits_m='|m| <= 2^20', digits_e='enumerated', digits_b=[2, 3, 10, 16],
-                    rational='|p|,|q| <= 4096', parse_spellings=len(PARSE_SPELLINGS), concrete_spellings_per_run=16 * (40 if tier == 'quick' else 400)),
+                    rational='|p|,|q| <= 4096', fixed_concrete_spellings=len(PARSE_SPELLINGS), concrete_spellings_per_run=16 * (40 if tier == 'quick' else 400)),
         outside=['that the regular expression splits a spelling by its shape only, independently of the digit values (the template digits are 1 and 2); exercised, not decided, by the concrete table',
-                 'digit groups longer than the bound', 'ast.parse itself (CPython)', 'ops.digits / ops.rational / ops.hexfloat called from Python rather than written in FPy source'],
-        stubs=['int(<digit group>, base) -> symbolic integer below base^len', 'Fraction -> unreduced symbolic (numerator, denominator)', 'ast.Constant.value -> symbolic double (is_integer / int / str symbolic)'],
+                 'digit groups longer than the bound', 'ast.parse (CPython) and the front end consuming its double: concrete table only', 'ops.digits / ops.rational / ops.hexfloat called from Python rather than written in FPy source'],
+        stubs=['int(<digit group>, base) -> symbolic integer below base^len', 'Fraction -> unreduced symbolic (numerator, denominator)'],
         assumptions=['a bare literal under a narrow context may evaluate to its exact value (documented E-Val) or to that value rounded once; fp.round(<literal>) and <literal> + 0 must be the exact value rounded once'],
         rule='one case = one feasible path of the real code for one spelling shape, decided for every digit value; concrete spellings are counted separately',
-        explanation='symbolic digit values through the real regex/assembly code; unconstrained symbolic double through the real parser; concrete end-to-end table as support',
+        explanation='symbolic digit values through the real regex/assembly code; the parser receives the literal already rounded to a double by CPython (ast.parse), a C boundary no symbolic value crosses, so the path from spelling to parser is covered by the concrete end-to-end table only',
     )
